@@ -52,7 +52,9 @@ class RowArr:
         return RowArrT(self)
 
     def copy(self):
-        return RowArr(self.n, self.f, self.tail)
+        c = self.__class__.__new__(self.__class__)
+        c.__dict__.update(self.__dict__)
+        return c
 
     def _as_array(self):
         return self.copy()
